@@ -1,17 +1,19 @@
 #!/bin/bash
 # tools/try_mutation.sh <dir with patch.diff demo.py meta.json> [check ids...]
-# 1. confirm in a scratch worktree: suite passes with the patch, demo fails with / passes without it
-# 2. apply to /repo, run the checks, revert.  Prints a summary line per check.
+# 1. confirm in a scratch worktree of /repo: suite passes with the patch, demo fails with / passes without it
+# 2. apply to the repository the checks read (PYXAB_REPO, default /repo), run the checks, revert.
 set -u
+here="$(cd "$(dirname "$0")/.." && pwd)"
+R="${PYXAB_REPO:-/repo}"
 d=$(realpath "$1"); shift
 w=/var/tmp/mutcheck.$$
 git -C /repo worktree add -q --detach $w HEAD || exit 2
 cp "$d/demo.py" $w/_demo.py
-( cd $w && timeout 300 /venv/bin/python _demo.py >/dev/null 2>&1; echo "demo-without-patch rc=$?" )
+( cd $w && timeout 600 /venv/bin/python _demo.py >/dev/null 2>&1; echo "demo-without-patch rc=$?" )
 ( cd $w && git apply "$d/patch.diff" && echo patch-applies ) || { echo PATCH-DOES-NOT-APPLY; git -C /repo worktree remove --force $w; exit 2; }
-( cd $w && timeout 300 /venv/bin/python _demo.py 2>&1 | grep -v "WARNING conda" | tail -2; echo "demo-with-patch rc=${PIPESTATUS[0]}" )
+( cd $w && timeout 600 /venv/bin/python _demo.py 2>&1 | grep -v "WARNING conda" | tail -2; echo "demo-with-patch rc=${PIPESTATUS[0]}" )
 ( cd $w && timeout 900 /venv/bin/python -m pytest -q -p no:cacheprovider --timeout=900 2>&1 | tail -1 )
 git -C /repo worktree remove --force $w
-git -C /repo apply "$d/patch.diff" || exit 2
-/verif/tools/run_all.sh "$@"
-git -C /repo checkout -- . && git -C /repo status --short | head -3
+( cd "$R" && git apply "$d/patch.diff" ) || exit 2
+"$here/tools/run_all.sh" "$@"
+( cd "$R" && git checkout -- . && git status --short | head -3 )
